@@ -1,7 +1,94 @@
-"""C09 TLV encoding round-trips and never emits or accepts a mis-sized element (placeholder, filled in below)."""
+"""C09 TLV encoding round-trips and never emits or accepts a mis-sized element.
+
+One driver (harness/c09_tlv.c) holds an independent reference TLV codec and drives the tree codec (tlv.c), the element codec
+(tlv_element.c) and the header reader (fast_tlv.c).  Every sub-section runs as its own process so that a sanitizer abort in one
+(e.g. a write before a too small buffer) costs only that sub-section.
+"""
+from vlib import core
+
 LEVEL = 'exploration'
+
+# what-mask bits of the driver
+TREE_SER, EL_FIT, EL_SHORT, PARSE, STREAM, EDIT = 1, 2, 4, 8, 16, 32
 
 
 def run(ctx):
     exe = ctx.driver('c09_tlv', ['c09_tlv.c'])
-    print(exe)
+    quick = ctx.tier == 'quick'
+    seed = ctx.seed
+    k = 1 if quick else 30          # multiplier for the random tree populations
+    jobs = []
+
+    def add(gen, what, nshards, count):
+        for i in range(nshards):
+            jobs.append([gen, what, seed, i, nshards, count])
+
+    # minimal boundary witnesses first (their replays are the smallest), the zero-length input on its own
+    for w in (TREE_SER, EL_FIT, EL_SHORT, PARSE | STREAM):
+        add('witness', w, 1, 0)
+    add('empty', PARSE, 1, 0)
+    # exhaustive: all 2^16 two-byte prefixes x trailing lengths (trailing bytes vary with the seed)
+    add('prefix', PARSE | STREAM, 16, 0)
+    # payload lengths 0..300 and 65530..65540, both header forms, flags
+    leafcount = 1 if quick else 2
+    add('leaf', TREE_SER, 8, leafcount)
+    add('leaf', EL_FIT, 4, leafcount)
+    add('leaf', EL_SHORT, 4, leafcount)
+    add('leaf', PARSE | STREAM, 8, leafcount)
+    # random nested trees (depth <= 6, <= ~600 bytes): every buffer size, every truncation, every length-field perturbation
+    add('trees', TREE_SER, 16, 1500 * k)
+    add('trees', EL_FIT, 8, 3000 * k)
+    add('trees', EL_SHORT, 8, 2000 * k)
+    add('trees', PARSE, 16, 1200 * k)
+    add('trees', STREAM, 16, 1200 * k)
+    add('trees', EDIT, 4, 3000 * k)
+    # content totals around 65535/65536/65537 at every depth
+    nbig = 4 if quick else 150
+    add('big', TREE_SER, 16, nbig)
+    add('big', EL_FIT, 8, nbig)
+    add('big', EL_SHORT, 8, nbig)
+    add('big', PARSE, 8, nbig)
+
+    ctx.rule = ('reference codec in the driver (encoder left-to-right, decoder with exact tiling). Cases: (a) all 65536 two-byte prefixes x '
+                'input lengths {1..hdr, needed-1, needed, needed+1} (16-bit form: length fields 0,1,2,0xff,0x100,0x101,0xffff) through '
+                'KSI_FTLV_memRead/memReadN/fileRead/socketRead, KSI_TLV_parseBlob(2)+getNestedList and KSI_TlvElement_parse+expansion, expanded '
+                'recursively wherever the library expands; (b) leaves with payload length 0..300 and 65530..65540 x tags '
+                '{0,1,0x1f,0x20,0xff,0x100,0x1fff} x flags; (c) random trees to depth 6 incl. content sizes steered to 252..259; (d) nested '
+                'trees with content totals 65531..65541, 66000, 131071..131073 placed at depth 0..5. Per tree: KSI_TLV_serialize, '
+                'serialize_ex/writeBytes/serializePayload and KSI_TlvElement_serialize with every option into exactly sized buffers of EVERY '
+                'size 0..needed+8 (large trees: sizes around 0, 256, 65536 and needed), NULL-buffer length query, clone, getRawValue, detach, '
+                'remove/set edits; the reference encoding, every truncation of it and every length field +-1/+-256 through all parsers; '
+                'FILE (fmemopen) and socketpair stream readers with foreign bytes after the element and every truncation. '
+                'distinct = distinct input byte strings (parsers/readers) resp. distinct (tree encoding, sub-section) pairs, by 64-bit hash.')
+    ctx.assumptions = [
+        'reference TLV codec in harness/c09_tlv.c written from DESIGN.md Appendix A, independent of libksi',
+        'ASan+UBSan build of the library; inputs and output buffers are exactly sized heap blocks; leak detection is off for this check '
+        '(leaks are not part of C09)',
+        'sufficient buffer (n >= needed) must succeed with exactly the reference bytes, smaller buffers must fail; a tree holding an element '
+        'with more than 65535 content bytes must be refused by every serialising entry point that writes its header',
+        'KSI_TlvElement_parse and KSI_FTLV_memRead are prefix readers (they report the size of the first element, trailing bytes belong to '
+        'the caller); KSI_TLV_parseBlob and every nested expansion must tile exactly',
+        'well-sized but non-canonical encodings (16-bit header where the 8-bit form would do) may be accepted or refused; when accepted the '
+        'reported fields must be the encoded ones',
+        'a NULL-buffer length query is not a write: for oversize trees its result is not judged',
+    ]
+    ctx.exhaustive = False
+    ctx.extra['exhaustive_subspaces'] = ['all 2^16 two-byte header prefixes x the listed input lengths (independent of the seed)',
+                                         'leaf payload lengths 0..300 and 65530..65540 x both header forms',
+                                         'every output buffer size 0..needed+8 for every tree of at most 700 encoded bytes']
+    env = ctx.env(ASAN_OPTIONS=core.SAN_ENV['ASAN_OPTIONS'] + ':detect_leaks=0:quarantine_size_mb=32')
+    fin = ctx.run_shards(exe, jobs, env=env, timeout=3000)
+    ctx.extra['processes'] = len(jobs)
+    ctx.extra['processes_finished'] = fin
+    c = ctx.counters
+    ctx.require(fin == len(jobs) or ctx.violations or ctx.known_printed, 'all %d driver processes finish (%d did)' % (len(jobs), fin))
+    if fin == len(jobs):
+        floors = dict(prefix_inputs=1100000, serialized_exact_buffer_ok=20000, serialized_larger_buffer_ok=100000,
+                      short_buffer_refused=1000000, tlv_expansions_equal=100000, element_expansions_equal=100000,
+                      tlv_mistiled_rejected=50000, element_mistiled_rejected=50000, memRead_equal=50000, memReadN_equal=100000,
+                      parseBlob_missized_rejected=500000, truncations=500000, length_perturbations=50000, noncanonical_inputs=500,
+                      fileRead_exact_element=50000, socketRead_exact_element=5000, stream_truncated_refused=100000,
+                      clones_ok=10000, detach_ok=10000, getRawValue_ok=10000, edit_roundtrips_ok=5000, trees_oversize=200)
+        for name, v in floors.items():
+            ctx.require(c.get(name, 0) >= v, '%s >= %d (saw %d)' % (name, v, c.get(name, 0)))
+        ctx.require(c.get('oversize_refused', 0) > 0 or ctx.violations or ctx.known_printed, 'oversize trees were serialised')
